@@ -35,6 +35,8 @@ SizedArgs(name, seed) ==
      ELSE IF name = "console" /\ n = "console_flags" THEN U32Bytes(seed % 2)
      ELSE IF name = "relocatable" /\ n = "preference" THEN U32Bytes(seed % 3)
      ELSE IF seed = 3 /\ FieldW(name, n) \in {4, 8} THEN EndLike(FieldOff(name, n), FieldW(name, n))
+     ELSE IF seed = 4 THEN [i \in 1..FieldW(name, n) |-> 255]          \* every argument at its maximum
+     ELSE IF seed = 5 THEN [i \in 1..FieldW(name, n) |-> 0]            \* ... and at zero
      ELSE Mark(seed + FieldOff(name, n), FieldW(name, n))]
 HFlags(seed) == [flags |-> U16Bytes(seed % 2)]
 
@@ -65,8 +67,8 @@ DstCtorKinds == {n \in InfoKindNames : InfoKind(n).dst} \cup {"custom", "info_re
 \* ---- Ctor corpus -------------------------------------------------------------------------------------------
 CtorCall(name, args, clone) == [op |-> "construct", kind |-> name, clone |-> clone] @@ args
 CtorParams ==
-  { [kind |-> n, seed |-> s, n |-> 0, variant |-> "sized"] : n \in SizedInfoKinds \cup SizedHdrKinds, s \in {1, 2} }
-  \cup { [kind |-> n, seed |-> s, n |-> len, variant |-> "dst"] : n \in DstCtorKinds, s \in {1, 2}, len \in 0..MaxContent }
+  { [kind |-> n, seed |-> s, n |-> 0, variant |-> "sized"] : n \in SizedInfoKinds \cup SizedHdrKinds, s \in {1, 2, 3, 4, 5} }
+  \cup { [kind |-> n, seed |-> s, n |-> len, variant |-> "dst"] : n \in DstCtorKinds, s \in {1, 2, 3}, len \in 0..MaxContent }
   \cup { [kind |-> n, seed |-> 1, n |-> 0, variant |-> v] : n \in {"end", "hend", "efi_bs"}, v \in {"new", "default"} }
   \cup { [kind |-> "framebuffer", seed |-> 1, n |-> n, variant |-> "dst"] : n \in BigPalettes }
   \cup { [kind |-> "module", seed |-> 1, n |-> 3, variant |-> v] : v \in {"end=start", "end<start"} }
@@ -124,7 +126,8 @@ BuilderParams ==
   \cup { [seq |-> <<<<s, 3>>>>] : s \in AllSlots } \cup { [seq |-> <<<<s, 3>>, <<t, 3>>>>] : s \in BSlots, t \in BSlots }
 BuilderCase(p) ==
   [mem |-> <<>>, al |-> 0,
-   calls |-> <<[op |-> "b_new"]>> \o [i \in 1..Len(p.seq) |-> BSet(p.seq[i][1], p.seq[i][2])]
+   \* Builder::new() and Builder::default() are the same empty builder: odd-length sequences start from default()
+   calls |-> <<[op |-> "b_new", default |-> (Len(p.seq) % 2 = 1)]>> \o [i \in 1..Len(p.seq) |-> BSet(p.seq[i][1], p.seq[i][2])]
              \o <<[op |-> "b_build"], [op |-> "b_load"]>>,
    desc |-> [area |-> "builder", seq |-> p.seq]]
 
